@@ -13,15 +13,15 @@ import (
 // ---- C11: the poller dispatches each descriptor's events completely and in order (poll.live) ----
 
 type stubOp struct {
-	id      int
-	fd, pfd int
-	op      *netpoll.FDOperator
-	in      []byte // bytes delivered through Inputs/InputAck
-	buf     []byte
-	out     []byte // bytes still to send (Outputs)
-	acked   int
-	hups    int
-	events  []string
+	id       int
+	fd, pfd  int
+	op       *netpoll.FDOperator
+	in       []byte // bytes delivered through Inputs/InputAck
+	buf      []byte
+	out      []byte // bytes still to send (Outputs)
+	acked    int
+	hups     int
+	events   []string
 	afterHup []string
 }
 
